@@ -767,6 +767,23 @@ class Analysis:
             return ("phi", v[1], var)
         return ("opq", var, v[1], v[2])
 
+    def phi_variant_input(self, val, variant):
+        """a phi of enum aggregates read as `variant`: the only input built as that variant (the value
+        can only be that one when the downcast is executed)"""
+        if not (val[0] == "phi" and len(val) == 3 and val[2].startswith("v")):
+            return None
+        b, var = val[1], val[2]
+        preds = [p for p, _ in self.cfg.pred[b]]
+        if any(self.cfg.dominates(b, p) for p in preds) or any(p not in self.ver_out for p in preds):
+            return None
+        ins = [self.var_term(self.ver_out[p], var) for p in preds]
+        if not all(t[0] == "agg" and t[1] == "adt" for t in ins):
+            return None
+        same = {t for t in ins if t[2][1] == variant}
+        if len(same) == 1:
+            return next(iter(same))
+        return None
+
     def phi_inputs(self, b, var):
         """terms flowing into the phi of SSA variable `var` at block b"""
         return [self.var_term(self.ver_out[p], var) for p, _ in self.cfg.pred[b] if p in self.ver_out]
@@ -805,9 +822,14 @@ class Analysis:
                     mode = "mem"
                 elif k == "field":
                     val = mk_field(val, e["name"], e["idx"])
+                    if val[0] == "field" and val[1][0] == "dc" and val[1][1][0] == "phi":
+                        pay = self.phi_variant_input(val[1][1], val[1][2])
+                        if pay is not None:
+                            val = mk_field(pay, e["name"], e["idx"])
                     vp += "." + e["name"]
                 elif k == "downcast":
-                    val = ("dc", val, e["variant"])
+                    pay = self.phi_variant_input(val, e["variant"])
+                    val = pay if pay is not None else ("dc", val, e["variant"])
                     vp += "@" + e["variant"]
                 else:
                     idx = self.var_term(cur, "v%d" % e["local"]) if k == "index" else ("cidx", e.get("offset"))
@@ -1022,6 +1044,18 @@ class Analysis:
                 res = mk_call(key, args, targs, self, cur)
             else:
                 res = ("site", b, key)
+        unwraps = None
+        if key == "core::option::Option::unwrap_or_else" and len(raw_args) == 2 and raw_args[1][0] == "agg" \
+                and raw_args[1][1] == "closure":
+            cf = self.prog.fns.get(raw_args[1][2])
+            if cf is not None and not any(bb["term"]["k"] == "return" for bb in cf["blocks"]):
+                # the fallback closure never returns (it panics): the result is the payload of Some
+                res = mk_field(("dc", raw_args[0], "Some"), "0", 0)
+                unwraps = raw_args[0]
+        if key in ("core::option::Option::unwrap", "core::option::Option::expect", "core::option::Option::unwrap_unchecked") \
+                and raw_args and res is not None and res[0] == "site":
+            # Option<&mut T>: not a pure call (the reference is handed through), but the result is the payload
+            res = mk_field(("dc", raw_args[0], "Some"), "0", 0)
         swap_store = None
         if key in E.MEM_REPLACE and t["args"] and t["args"][0]["k"] in ("copy", "move"):
             # replace(p, v) / take(p): the result is the old value of *p, then *p is overwritten
@@ -1041,6 +1075,8 @@ class Analysis:
         ev = {"k": "call", "b": b, "i": i, "key": key, "fn": fn, "args": raw_args, "pure": pure,
               "res": res, "span": blk["tspan"], "func_term": fterm, "vers": dict(cur),
               "unsafe": bool(fn and fn.get("unsafe")), "diverges": t["target"] is None}
+        if unwraps is not None:
+            ev["unwraps"] = unwraps
         self.emit(ev)
         if swap_store is not None:
             self.emit(swap_store)
@@ -1184,6 +1220,11 @@ def mk_call(key, args, targs, an, cur):
     if key in ("core::option::Option::unwrap", "core::option::Option::expect",
                "core::option::Option::unwrap_unchecked") and args:
         return mk_field(("dc", args[0], "Some"), "0", 0)
+    if key == "core::option::Option::unwrap_or_else" and len(args) == 2 and args[1][0] == "agg" and args[1][1] == "closure":
+        cf = an.prog.fns.get(args[1][2])
+        if cf is not None and not any(b["term"]["k"] == "return" for b in cf["blocks"]):
+            # the fallback closure never returns (it panics): the result is the payload
+            return mk_field(("dc", args[0], "Some"), "0", 0)
     if key in ("core::result::Result::unwrap", "core::result::Result::expect",
                "core::result::Result::unwrap_unchecked") and args:
         return mk_field(("dc", args[0], "Ok"), "0", 0)
